@@ -45,6 +45,7 @@ func runC15(p *eng.Prog, r *eng.Report, tier string) {
 	c15Close(c)
 	waitBoundedByDeadline(c, "C15.18", "ibb", 1)
 	c15EveryPacketHandled(c, "C15.19")
+	c15RoutingEntryNotReplaced(c, "C15.20")
 	c15OpenRegistered(c)
 	c15BlockBounded(c)
 	// C15.2 the session id that selects the stream is the payload's own sid
@@ -1028,4 +1029,32 @@ func c15EveryPacketHandled(c *cx, id string) {
 		}
 	}
 	c.r.Floor(id, "returns after the decode of a data packet", n, 4)
+}
+
+// c15RoutingEntryNotReplaced (C15.20): the handler routes data and close
+// packets by session id through Handler.streams. A store under an id that is
+// registered already replaces a live stream - its reader never sees the rest
+// of its data nor end of file - and the clean-up of the newcomer (a refused
+// open removes "its" entry) then removes the route altogether. Every store
+// into Handler.streams is dominated, in the same function and under the same
+// lock, by a look-up of that key that missed.
+func c15RoutingEntryNotReplaced(c *cx, id string) {
+	n := 0
+	for _, f := range c.allFns() {
+		if !strings.HasPrefix(f.Short, "ibb.") {
+			continue
+		}
+		for _, mu := range f.MapUpdates() {
+			if cls, ok := f.FieldClass(mu.Map); !ok || cls != "ibb.Handler.streams" || mu.Delete {
+				continue
+			}
+			n++
+			g := f.Graph()
+			pt, _ := g.Where(mu.Node)
+			key := f.Norm(mu.Key, &pt)
+			okd, why := g.DominatedAny(pt, []string{"!commaok(*.streams[" + key + "])"})
+			c.r.Check(id, f, "store into Handler.streams", "G: a stream is registered under a session id only behind a look-up of that id that found nothing (a live stream is never replaced)", mu.Node.Pos(), okd, why+": a second stream opened under the id of a live one takes over its route, and removes it when the open is refused")
+		}
+	}
+	c.r.Floor(id, "stores into Handler.streams", n, 1)
 }
